@@ -29,8 +29,8 @@
 (* exact rational or undefined), `out` (the .png tiles: a pixel is the byte    *)
 (* floor(255 * sqrt(clip01(v))), undefined -> 0), `wtml` (index_rel.wtml or    *)
 (* nothing), and the user's session object `bld` (Builder: format, recorded    *)
-(* tile levels).  Everything else (base, cons, fresh, shrunk, wtml.cur,        *)
-(* bld.sampled) is a GHOST: the guarantee a user can derive from the command   *)
+(* tile levels).  Everything else (base, cons, fresh, removed, rebased,         *)
+(* wtml.cur, bld.sampled) is a GHOST: what a user can derive from the command  *)
 (* history alone, without looking into the directory.  The theorems say that   *)
 (* this bookkeeping is sound (what it promises holds in the directory) and     *)
 (* name what is NOT promised (stale levels, orphan parents, stale outputs,     *)
@@ -158,20 +158,23 @@ VARIABLES data,     \* Pos -> data tile (.npy file) or Absent
           base,     \* depth of the last Sample (-1: none yet)
           cons,     \* levels known to be consistent with the level below them
           fresh,    \* levels whose output tiles are known to be the transform of the data tiles
-          shrunk    \* some Sample removed a file or changed the sampled depth: orphans / leftovers are possible
-vars == <<data, out, wtml, bld, n, base, cons, fresh, shrunk>>
+          removed,  \* some Sample removed a tile file (a clobbering re-sample over a smaller region)
+          rebased   \* some Sample changed the sampled depth
+vars == <<data, out, wtml, bld, n, base, cons, fresh, removed, rebased>>
+\* either way tiles may be left whose leaves are gone: orphans, deeper leftovers, stale outputs
+shrunk == removed \/ rebased
 
 NoWtml == [ex |-> FALSE, levels |-> 0, ftype |-> "", cur |-> FALSE]
 Init == /\ data = [p \in Pos |-> Absent]
         /\ out = [p \in Pos |-> OAbsent]
         /\ wtml = NoWtml
         /\ bld = [fmt |-> DataFmt, levels |-> 0, sampled |-> FALSE]        \* Builder(): ImageSet().tile_levels = 0
-        /\ n = 0 /\ base = -1 /\ cons = {} /\ fresh = {} /\ shrunk = FALSE
+        /\ n = 0 /\ base = -1 /\ cons = {} /\ fresh = {} /\ removed = FALSE /\ rebased = FALSE
 
 \* a new PyramidIO + Builder over the same directory; the old object is dropped
 NewBuilder(cmd) == /\ cmd.op = "NewBuilder"
                    /\ bld' = [fmt |-> cmd.fmt, levels |-> 0, sampled |-> FALSE]
-                   /\ UNCHANGED <<data, out, wtml, base, cons, fresh, shrunk>>
+                   /\ UNCHANGED <<data, out, wtml, base, cons, fresh, removed, rebased>>
 
 \* sampling float data needs a pyramid opened in the data format (a png PyramidIO cannot store F16x3 / F32 tiles)
 Sample(cmd) == /\ cmd.op = "Sample" /\ bld.fmt = DataFmt
@@ -180,7 +183,8 @@ Sample(cmd) == /\ cmd.op = "Sample" /\ bld.fmt = DataFmt
                /\ base' = cmd.d
                /\ cons' = cons \ {cmd.d, cmd.d - 1}         \* level d changed: its parents are stale, and it no longer is the merge of ITS children
                /\ fresh' = fresh \ {cmd.d}
-               /\ shrunk' = (shrunk \/ (base # -1 /\ base # cmd.d) \/ \E p \in Pos : data[p].ex /\ ~data'[p].ex)
+               /\ removed' = (removed \/ \E p \in Pos : data[p].ex /\ ~data'[p].ex)
+               /\ rebased' = (rebased \/ (base # -1 /\ base # cmd.d))
                /\ wtml' = [wtml EXCEPT !.cur = FALSE]
                /\ UNCHANGED out
 
@@ -196,7 +200,7 @@ CascadeStep(cmd, deviates) ==
     /\ data' = CascadeResult(data, cmd.d)
     /\ cons' = cons \cup 0..(cmd.d - 1)
     /\ fresh' = fresh \ 0..(cmd.d - 1)
-    /\ UNCHANGED <<out, wtml, bld, base, shrunk>>
+    /\ UNCHANGED <<out, wtml, bld, base, removed, rebased>>
 CascadeClean(cmd) == CascadeStep(cmd, FALSE)              \* the result is the ideal rule's result
 \* the deviation: some parent keeps (or some ancestor averages in) pixels whose leaves no longer exist
 CascadeLeavesOrphans(cmd) == CascadeStep(cmd, TRUE)
@@ -205,14 +209,14 @@ TransformStep(cmd, deviates) ==
     /\ cmd.op = "Transform" /\ StaleOut(out, data, cmd.d) = deviates
     /\ out' = TransformResult(out, data, cmd.d)
     /\ fresh' = fresh \cup 0..cmd.d
-    /\ UNCHANGED <<data, wtml, bld, base, cons, shrunk>>
+    /\ UNCHANGED <<data, wtml, bld, base, cons, removed, rebased>>
 TransformClean(cmd) == TransformStep(cmd, FALSE)          \* the output pyramid mirrors the data pyramid on levels 0 .. s
 \* the deviation: an output tile whose data tile has disappeared is left in place
 TransformLeavesStale(cmd) == TransformStep(cmd, TRUE)
 
 WriteWtml(cmd) == /\ cmd.op = "WriteWtml"
                   /\ wtml' = [ex |-> TRUE, levels |-> bld.levels, ftype |-> bld.fmt, cur |-> bld.sampled]
-                  /\ UNCHANGED <<data, out, bld, base, cons, fresh, shrunk>>
+                  /\ UNCHANGED <<data, out, bld, base, cons, fresh, removed, rebased>>
 
 Do(cmd) == /\ n < MaxCmds /\ n' = n + 1
            /\ \/ NewBuilder(cmd) \/ Sample(cmd) \/ CascadeClean(cmd) \/ CascadeLeavesOrphans(cmd)
@@ -294,14 +298,14 @@ UnsampledBuilderLevelsZero == ~bld.sampled => bld.levels = 0
 
 \* ---- statements that are NOT true of the code as built (TLC must refute each: negative controls, and the
 \*      counterexamples are the shortest command sequences that leave stale data behind)
-\* a re-sample over a smaller region followed by a cascade leaves no childless parent
-NoOrphanAfterCascade == \A lv \in cons : \A p \in Level(lv) : p[1] < base => ~Orphan(p)
-\* after cascading from the sampled depth the pyramid is the ideal pyramid of the leaves
-AlwaysIdealAfterCascade == (base >= 1 /\ (0..(base - 1)) \subseteq cons) => \A p \in Pos : data[p] = IdealResult(data, base)[p]
+\* a re-sample at the same depth followed by a cascade leaves no childless parent
+NoOrphanAfterCascade == ~rebased => \A lv \in cons : \A p \in Level(lv) : p[1] < base => ~Orphan(p)
+\* after sampling at one depth only and cascading from it the pyramid is the ideal pyramid of the leaves
+AlwaysIdealAfterCascade == (~rebased /\ base >= 1 /\ (0..(base - 1)) \subseteq cons) => \A p \in Pos : data[p] = IdealResult(data, base)[p]
 \* a sample at a shallower depth after a deeper cascade leaves nothing deeper than the sampled depth
 NothingDeeperThanBase == \A p \in DataPos : p[1] <= base
-\* outputs exist only where data exists
-NoStaleOutput == OutPos \subseteq DataPos
+\* outputs exist only where data exists (sampling at one depth only)
+NoStaleOutput == ~rebased => OutPos \subseteq DataPos
 \* the WTML on disk always names the deepest populated level
 WtmlAlwaysDeepest == (wtml.ex /\ DataPos # {}) => wtml.levels = W!Deepest(DataPos)
 \* the transform commutes with the cascade (sqrt is not linear): transforming the merged tile = merging the transformed
